@@ -7,14 +7,14 @@ def config(T):
         "C02": dict(pkg="c02", tests=[T("TestConverge", 2400, 32000, sq=8, st=16, race=True), T("TestRoundTrip", 8000, 80000, sq=4, st=8, pkg="c03")]),
         "C03": dict(pkg="c03", fuzz=[dict(name="FuzzRoundTrip", secs=60)], tests=[T("TestPinned"), T("TestRoundTrip", 36000, 400000, sq=8, st=16)]),
         "C06": dict(pkg="c06", race_quick=True, tests=[T("TestKnownTypename"), T("TestSiblingHops", race=True), T("TestTransparent", 640, 16000, sq=8, st=16), T("TestDirectivesGateway", 80, 4000, sq=4, st=8),
-                                                       T("TestConcurrentRefresh", 30, 600, sq=1, st=4, race=True, timeout_q=900)]),
+                                                       T("TestConcurrentRefresh", 30, 600, sq=1, st=4, race=True, timeout_q=900), T("TestRefreshAfterChange", 400, 6000, sq=4, st=8)]),
         "C07": dict(pkg="c07", tests=[T("TestLiveSQL", 6400, 48000, sq=8, st=16, race=True)]),
         "C08": dict(pkg="c08", tests=[T("TestPinned"), T("TestCache", 7200, 96000, sq=8, st=16, race=True)]),
-        "C09": dict(pkg="c09", fuzz=[dict(name="FuzzMergeAlgebra", secs=45)], tests=[T("TestKnownOrder"), T("TestMergeAlgebra", 12000, 160000, sq=8, st=16), T("TestVersionedGateway", 240, 8000, sq=4, st=8)]),
+        "C09": dict(pkg="c09", fuzz=[dict(name="FuzzMergeAlgebra", secs=45)], tests=[T("TestKnownOrder"), T("TestMergeAlgebra", 12000, 160000, sq=8, st=16), T("TestVersionedGateway", 240, 8000, sq=4, st=8), T("TestRefreshAfterChange", 240, 4000, sq=3, st=8, pkg="c06")]),
         "C10": dict(pkg="c10", fuzz=[dict(name="FuzzBatchTransparent", secs=40)], tests=[T("TestBatchTransparent", 4800, 48000, sq=8, st=16, race=True)]),
         "C11": dict(pkg="c11", fuzz=[dict(name="FuzzPagination", secs=45)], tests=[T("TestPagination", 18000, 240000, sq=8, st=16)]),
         "C12": dict(pkg="c12", fuzz=[dict(name="FuzzShardLimit", secs=40)], tests=[T("TestShardLimit", 7200, 64000, sq=8, st=16)]),
-        "C13": dict(pkg="c13", fuzz=[dict(name="FuzzCodec", secs=40)], tests=[T("TestCodec", 18000, 300000, sq=6, st=16), T("TestProtoFilter", 9000, 100000, sq=4, st=8), T("TestSameNamedTypes", 300, 3000)]),
+        "C13": dict(pkg="c13", fuzz=[dict(name="FuzzCodec", secs=40)], tests=[T("TestCodec", 18000, 300000, sq=6, st=16), T("TestProtoFilter", 9000, 100000, sq=4, st=8), T("TestSameNamedTypes", 300, 3000), T("TestInterleavedRows", 3000, 60000, sq=2, st=4)]),
         "C14": dict(pkg="c14", tests=[T("TestPinned"), T("TestAdvertised", 1800, 24000, sq=6, st=16), T("TestMethodShapes", 9000, 120000, sq=4, st=8)]),
         "C15": dict(pkg="c15", fuzz=[dict(name="FuzzPipeline", secs=90), dict(name="FuzzEnvelope", secs=45), dict(name="FuzzHTTP", secs=45)], tests=[T("TestPinned"), T("TestDocuments", 36000, 600000, sq=6, st=16), T("TestBombs", 200, 2000, sq=2, st=4),
                                       T("TestEnvelopes", 600, 20000, sq=2, st=8, race=True), T("TestHTTP", 800, 20000, sq=2, st=4),
